@@ -78,6 +78,10 @@ Definition target_ok (i : insn) (len : Z) (s : cpu) : bool :=
   match i with
   | IBcc _ d | IBsr d => t_ok (pc s + len + d)
   | IJsr (JReg 7) => t_ok ((reg32 s 7 - 4) mod A24)      (* the target register is read after the push *)
+  | IJsr (JInd aa) =>
+    (* the vector is not covered by the frame the call pushes (the manual leaves the order of the two accesses open) *)
+    (let f := (reg32 s 7 - 4) mod A24 in (f + 4 <=? aa) || (aa + 4 <=? f)) &&
+    match jump_target s (JInd aa) with Some a => t_ok a | None => false end
   | IJmp t | IJsr t => match jump_target s t with Some a => t_ok a | None => false end
   | IRts | IRte => match mem_read SL s (reg32 s 7 mod A24) with Some v => t_ok (v mod A24) | None => false end
   | ITrapa n => match mem_read SL s (4 * (8 + n)) with Some v => t_ok (v mod A24) | None => false end
@@ -266,6 +270,16 @@ Definition mes_charge (s : cpu) : Z := 2 * price_at s 0 (pc s) + 2 * price_at s 
 Definition touches_timer (i : insn) (s : cpu) : bool :=
   existsb (fun p => (fst p <=? 0xffff99) && (0xffff80 <=? fst p + snd p - 1)) (accesses i s).
 
+(* an instruction one of whose words (as the operation-code map delimits it, unreadable words reading as 0) cannot be fetched
+   fails: the run returns that error *)
+Definition fetch_faults (s : cpu) : bool :=
+  (pc s mod 2 =? 0) &&
+  match ref_decode s with
+  | Some (_, len) =>
+    existsb (fun k => (k <? len) && match mem_read SW s (pc s + k) with None => true | Some _ => false end) [0; 2; 4; 6; 8]
+  | None => false
+  end.
+
 Fixpoint ref_run (fuel : nat) (s : cpu) (sync : Z) : option rres :=
   match fuel with
   | O => None
@@ -273,6 +287,7 @@ Fixpoint ref_run (fuel : nat) (s : cpu) (sync : Z) : option rres :=
     let one : option (option (cpu * Z)) :=       (* None: no claim; Some None: the instruction fails; Some (Some ..): executed *)
       if is_mes_call s then
         (if dom_mes s then Some (option_map (fun s' => (s', mes_charge s)) (mes_ref s)) else None)
+      else if fetch_faults s then Some None
       else
         match ref_decode s with
         | Some (IUnimplemented, len) => if code_ok s len then Some None else None
